@@ -13,8 +13,8 @@ enum ArtType { A_PUBKEY33, A_PUBKEY65, A_XONLY, A_ECDSA64, A_ECDSA_DER, A_RECSIG
                A_ELLSWIFT, A_HALFAGG, A_COMMIT, A_GENERATOR, A_RANGEPROOF, A_SURJECTION, A_WHITELIST, A_BPPP_GENS, A_NTYPES };
 const char *const AN[] = {"pubkey33", "pubkey65", "xonly", "ecdsa64", "ecdsa_der", "recsig", "schnorr", "pubnonce", "aggnonce", "psig", "adaptor", "opening",
                           "ellswift", "halfagg", "commit", "generator", "rangeproof", "surjection", "whitelist", "bppp_gens"};
-enum DiskFault { D_NONE, D_BITROT, D_TORN, D_SHORT, D_EXTEND, D_STALE, D_MISDIRECT, D_ZERO, D_FF, D_HDRBIT, D_NF };
-const char *const DN[] = {"intact", "bitrot", "torn", "short", "extend", "stale", "misdirected", "zero_block", "ff_block", "header_bit"};
+enum DiskFault { D_NONE, D_BITROT, D_TORN, D_SHORT, D_EXTEND, D_STALE, D_MISDIRECT, D_ZERO, D_FF, D_HDRBIT, D_TAILBIT, D_NF };
+const char *const DN[] = {"intact", "bitrot", "torn", "short", "extend", "stale", "misdirected", "zero_block", "ff_block", "header_bit", "trailer_bit"};
 
 Bytes artifact(const Fixtures &f, int t) {
     switch (t) {
@@ -113,7 +113,14 @@ void consume(Use &u, const Bytes &rec) {
             if (!ok) return;
             int rc = U01(secp256k1_ecdsa_recover(ctx, &pk, &rs, F.msg)); expect_intact(u, rc, "secp256k1_ecdsa_recover");
             U01(secp256k1_ecdsa_recoverable_signature_convert(ctx, &s, &rs));
-            if (rc) { Buf o(33); size_t l = 33; U01(secp256k1_ec_pubkey_serialize(ctx, o.p(), &l, &pk, SECP256K1_EC_COMPRESSED)); }
+            if (rc) {
+                Buf o(33); size_t l = 33; U01(secp256k1_ec_pubkey_serialize(ctx, o.p(), &l, &pk, SECP256K1_EC_COMPRESSED));
+                // the header: a successful recovery "guarantees a correct signature" under the recovered key
+                secp256k1_ecdsa_signature ns; U01(secp256k1_ecdsa_signature_normalize(ctx, &ns, &s));
+                int v = U01(secp256k1_ecdsa_verify(ctx, &ns, F.msg, &pk));
+                u.r.cmp();
+                if (!v) u.r.violate("C07", "recovered_key_does_not_verify", "secp256k1_ecdsa_recover", "recover returned 1 for a stored recoverable signature (recid " + std::to_string(recid) + ") but the signature does not verify under the recovered key");
+            }
             break;
         }
         case A_SCHNORR: {
@@ -329,6 +336,7 @@ static void store_execute(const Plan &p, const ExecOpts &, Result &r) {
             case D_ZERO: std::fill(rec.begin(), rec.end(), 0); break;
             case D_FF: std::fill(rec.begin(), rec.end(), 0xff); break;
             case D_HDRBIT: if (n) { size_t span = std::min<size_t>(n, 2 + (size_t)(a2 % 3)); size_t bit = (size_t)(a1 % (int64_t)(8 * span)); rec[bit / 8] ^= (uint8_t)(1u << (bit % 8)); } break;   // single-bit rot in the header bytes, where the structure is
+            case D_TAILBIT: if (n) { size_t bit = (size_t)(a1 % 8); rec[n - 1] ^= (uint8_t)(1u << bit); } break;   // single-bit rot in the last byte (recovery ids, trailing scalars)
             default: break;
         }
         bool intact = rec == good && !structural;   // structural records parse but are not the wallet's own signature
